@@ -33,7 +33,7 @@ m = {
     "setup_cmd": "./setup.sh",
     "hooks": {
         "guard": "verif",
-        "enable": "go test -tags verif -overlay <generated overlay.json>: harness files, shim packages (verifshim/...) and instrumented copies of lib/attack.go, lib/targets.go, attack.go are injected by the overlay at check time; /repo contains no hook code",
+        "enable": "go test -tags verif -overlay <generated overlay.json>: harness files, shim packages (verifshim/...) and instrumented copies of lib/attack.go, lib/targets.go, attack.go (and, for C20, lib/prom/prom.go in statement mode) are injected by the overlay at check time; /repo contains no hook code",
         "baseline_off_cmd": "/verif/scripts/baseline.sh",
         "source_commits": [],
         "add_only": True,
